@@ -407,10 +407,11 @@ class Code:
     def AddLocal(self, local: Local):
         # If we're adding another local of the same type, we simply increment
         # the last local so we avoid generating tons of repeated locals
-        if self.__lastLocal:
-            if self.__lastLocal.Type == local.Type:
-                self.__lastLocal.SetCount(self.__lastLocal.Count + local.Count)
+        if self.__lastLocal and self.__lastLocal.Type == local.Type:
+            self.__lastLocal.SetCount(self.__lastLocal.Count + local.Count)
         else:
+            # First local, or a local of another type than the previous
+            # one: this starts a new group
             self.__locals.append(local)
             self.__lastLocal = local
 
